@@ -17,6 +17,8 @@ Inductive op : Type :=
 | OPushDeath (s : sstr) (exc : Z)
 | OPushStream (sid : Z) (show : bool)
 | OPop
+| OPopAt (k : nat)
+| OAddDeath (s : sstr) (exc : Z)
 | OSetBlacklist (l : list N)
 | OSetSlow (o : option (Z * nat)).
 
@@ -66,6 +68,8 @@ Definition run_op (o : op) (c : chan) : V * chan :=
   | OPushDeath s e => (VL [VN 0], push_death s e c)
   | OPushStream sid show => (VL [VN 0], push_stream sid show c)
   | OPop => (VL [VN 0], pop c)
+  | OPopAt k => (VL [VN 0], pop_at k c)
+  | OAddDeath s e => (VL [VN 0], add_death s e c)
   | OSetBlacklist l =>
       (VL [VN 0], mkChan (io c) (prompt c) (deaths c) (lgs c) l (slow c) (ctx c) (nextid c))
   | OSetSlow o =>
